@@ -8,9 +8,9 @@ from __future__ import annotations
 
 import io
 
-from sim import iso, writers
+from sim import iso, kernel, writers
 from sim.rng import Stream
-from sim.simio import SimRaw, SimText, chunk_schedule
+from sim.simio import SimNet, SimRaw, SimText, chunk_schedule
 from sim.terms import EX, XSD, T, key, skey, u
 
 ID = "C12"
@@ -53,6 +53,12 @@ DEFAULT = "urn:x-rdflib:default"
 TRIPLE_FORMATS = ["nt", "turtle", "n3", "xml", "json-ld", "hext"]
 QUAD_FORMATS = ["nquads", "trig", "trix", "json-ld", "hext"]
 LINE_FORMATS = {"nt", "nquads", "hext"}
+LOADABLE = ("nt", "turtle", "n3", "xml")  # what SPARQL LOAD tries
+SIDE_DOCS = {
+    "xml-preserve": ("xml", '<rdf:RDF xmlns:rdf="http://www.w3.org/1999/02/22-rdf-syntax-ns#" xmlns:e="http://ex.org/"><rdf:Description rdf:nodeID="b0"><e:p rdf:nodeID="b1"/></rdf:Description></rdf:RDF>', {"preserve_bnode_ids": True}),
+    "nt-context": ("nt", "_:b0 <http://ex.org/p> _:b1 .\n_:x <http://ex.org/p> _:b0 .\n", {"bnode_context": {}}),
+    "nquads-context": ("nquads", "_:b0 <http://ex.org/p> _:b1 <http://ex.org/g1> .\n", {"bnode_context": {}}),
+}
 GENLIKE = "N0123456789abcdef0123456789abcdef"
 PARSE_BUDGET = 3000000
 
@@ -70,6 +76,11 @@ def warm():
         plugin.get(f, Parser)
     import rdflib.plugins.parsers.notation3  # noqa
     import rdflib.plugins.shared.jsonld.util  # noqa
+    import rdflib._networking  # noqa
+    import rdflib.plugins.sparql  # noqa
+    import rdflib.plugins.sparql.update  # noqa
+
+    rdflib.Graph().update("INSERT DATA { <urn:a> <urn:b> <urn:c> }")
 
 
 def _gen_doc(g, fmt, labels, quadfmt, gnames):
@@ -127,11 +138,18 @@ def generate(seed, tier):
             quads = _gen_doc(g, fmt, lab, quadfmt, gnames)
             repeat = False
         mode = g.choice(["data-str", "data-bytes", "raw", "raw", "text"])
+        if fmt in LOADABLE and g.random() < 0.25:
+            mode = "load"  # SPARQL Update LOAD <url> through the simulated network
         call = {"uid": i + 1, "k": "parse", "format": fmt, "quads": quads, "mode": mode, "chunks": chunk_schedule(g), "repeat": repeat, "styled": g.random() < 0.5}
         if g.random() < 0.3:
             call["reseed"] = 12345
+        if mode == "load" and sink in ("dataset-F", "dataset-T", "cg") and g.random() < 0.4:
+            call["into"] = True  # LOAD <url> INTO GRAPH <g1>
+        if g.random() < 0.15:
+            # an earlier, unrelated parse call elsewhere in the program that asked for document labels to be kept
+            call["side"] = g.choice(["xml-preserve", "nt-context", "nquads-context"])
         if fault_call == i:
-            call["mode"] = g.choice(["raw", "text"])
+            call["mode"] = g.choice(["raw", "text", "load"]) if fmt in LOADABLE else g.choice(["raw", "text"])
             call["fault"] = {"kind": g.choice(["error", "eof"]), "frac": g.random()}
         calls.append(call)
         prev = (quads, fmt)
@@ -271,6 +289,14 @@ def _execute(trace, ctx):
             gid = T(g) if g is not None else T(["u", target[1]] if kind != "view" else ["u", DEFAULT])
             Graph(top.store, gid).add((T(s), T(p), T(o)))
     generated = []  # bnode ids created by rdflib during earlier calls
+    net = SimNet({}, stats=ctx.faults)
+    kernel.NET = kernel.refuse_network(net)
+
+    def url_of(call):
+        return "http://sim.example/doc%d" % call["uid"]
+
+    def load_text(call):
+        return f"LOAD <{url_of(call)}>" + (f" INTO GRAPH <{EX}g1>" if call.get("into") else "")
 
     def resolve(t):
         if t is not None and t[0] == "b" and t[1] == "@gen":
@@ -329,7 +355,11 @@ def _execute(trace, ctx):
         D = _place(quads, target, lambda t: t)
         if True:  # the reference is the whole document parsed alone, fault or not
             s2, t2, _ = make_sink(kind)
-            s2.parse(data=doc, format=fmt)
+            if call["mode"] == "load":
+                net.routes[url_of(call)] = (200, {"Content-Type": "text/plain"}, doc.encode("utf-8"))
+                s2.update(load_text(call))
+            else:
+                s2.parse(data=doc, format=fmt)
             alone = observe(t2, kind, target)
             alone_full = alone
             if fmt == "n3":
@@ -351,17 +381,45 @@ def _execute(trace, ctx):
                 D = ok if fmt != "n3" else alone_full  # (N3: the reference for the merge check includes what the formula adds)
             if call["uid"] % 2 == 0:
                 s3, t3, _ = make_sink(kind)
-                s3.parse(data=doc, format=fmt)
+                s3.update(load_text(call)) if call["mode"] == "load" else s3.parse(data=doc, format=fmt)
                 ctx.check(iso.isomorphic(alone_full, observe(t3, kind, target)), "C12.two-fresh-graphs", lambda: f"parsing the same {fmt} document into two fresh sinks gives non-isomorphic results")
 
-        kwargs, stream = _deliver(call, doc, ctx.faults)
+        if call.get("side"):
+            sf, sd, skw = SIDE_DOCS[call["side"]]
+            Graph().parse(data=sd, format=sf, **skw) if sf != "nquads" else make_sink("dataset-F")[0].parse(data=sd, format=sf, **skw)
+            ctx.probe("earlier-parse-with-label-keeping-option")
         err = None
-        try:
-            with ctx.budget(PARSE_BUDGET if call.get("fault") or call["mode"] in ("raw", "text") and call["chunks"][0] < 4 else None, "parse"):
-                sink.parse(format=fmt, **kwargs)
-        except Exception as e:
-            err = e
-        fired = stream is not None and stream.fired
+        if call["mode"] == "load":
+            ctx.probe("delivered-by-sparql-load")
+            data = doc.encode("utf-8")
+            streams = []
+            if call.get("fault"):
+                at = call["fault"].get("at")
+                at = min(int(call["fault"]["frac"] * len(data)) if at is None else at, max(len(data) - 1, 0))
+                flt = {"kind": call["fault"]["kind"], "at": at}
+
+                def body(data=data, flt=flt):
+                    s_ = SimRaw(data, call["chunks"], dict(flt), stats=ctx.faults)
+                    streams.append(s_)
+                    return s_
+
+                net.routes[url_of(call)] = (200, {"Content-Type": "text/plain"}, body)
+            else:
+                net.routes[url_of(call)] = (200, {"Content-Type": "text/plain"}, data)
+            try:
+                with ctx.budget(PARSE_BUDGET * 4 if call.get("fault") else None, "parse"):
+                    sink.update(load_text(call))
+            except Exception as e:
+                err = e
+            fired = any(s_.fired for s_ in streams)
+        else:
+            kwargs, stream = _deliver(call, doc, ctx.faults)
+            try:
+                with ctx.budget(PARSE_BUDGET if call.get("fault") or call["mode"] in ("raw", "text") and call["chunks"][0] < 4 else None, "parse"):
+                    sink.parse(format=fmt, **kwargs)
+            except Exception as e:
+                err = e
+            fired = stream is not None and stream.fired
         new = observe(top, kind, target)
         added = new - old
         lost = old - new
